@@ -528,6 +528,14 @@ func init() {
 					x.check(w, append(append([]Event{}, path...), Event{K: "epochs"}))
 				}
 			}
+			// the node's broadcasts are swallowed by the environment here, so a transition into an already known state
+			// can still have produced observations (a payload stamped from the wrong clock) that no other path shows
+			x.onEdge = func(w *World, path []Event) {
+				if w.lastObs > 0 {
+					x.res.Extra["edges_compared"]++
+					x.onState(w, path)
+				}
+			}
 		}
 		return runC14(x)
 	}
